@@ -49,7 +49,7 @@ func vpH_C08_plan_shape() {
 		if vpThorough() {
 			cls = vpShape("class", 0, 2)
 		} else {
-			cls = [][]int{{0, 0, 0, 0}, {1, 0, 0, 0}, {0, 2, 1, 0}}[pattern][i]
+			cls = [][]int{{0, 0, 0, 0}, {1, 2, 1, 2}, {0, 2, 1, 0}}[pattern][i] // regular only; partial-view classes only; all three
 		}
 		switch cls {
 		case 1:
